@@ -21,7 +21,8 @@ CLAIMED = {
     "C03": ("§4 C03", "Closed, NoDupSimplex, NoEmptySimplex, Integrity are invariants and RemoveExact, "
             "MaxOrderRespected action properties of the SimplicialComplex model (3 nodes, all five bulk formats, "
             "max_order, aliases); TLC evaluates them, and the logged has_simplex answers, on every implementation "
-            "step."),
+            "step, also RemoveExact for the bulk removal; id bunches are handed over as any iterable (one-shot "
+            "iterators included), histories open with scripted bulk additions that raise midway."),
     "C04": ("§4 C04", "UidFresh is an invariant and AddsPreserve an action property of the exhaustive models; both "
             "are evaluated by TLC on every logged implementation step (the id counter is peeked, not consumed)."),
     "C05": ("§4 C05", "Refinement: every implementation step must be one of the outcomes the specification's "
@@ -39,7 +40,8 @@ CLAIMED = {
     "C18": ("§4 C18", "freeze is an action of the exhaustive class models and of the random histories (TLC decides "
             "FrozenImmutable / NotRejected / is_frozen on every step); in addition every public method and in-place "
             "library function, found by introspection, is probed on an unfrozen twin and on the frozen network and "
-            "on subhypergraph results, and TLC checks that whatever changes the twin is rejected."),
+            "on subhypergraph results (generic and degenerate - empty - arguments), and TLC checks that whatever "
+            "changes the twin is rejected; the copy of a frozen network must be editable with the documented effect."),
     "C08": ("§4 C08", "the API surface is enumerated by introspection at run time (about 180 callables: xgi functions "
             "taking a network, view methods / properties / stats in four formats, copy, dual, <<, in_place=False "
             "variants); each is called on realised TLC-enumerated states of the three classes, returned id "
@@ -48,14 +50,16 @@ CLAIMED = {
     "C19": ("§4 C19", "NetOps.tla defines subhypergraph, dual (and its involution), <<, complement, cut_to_order / "
             "k_skeleton, from_max_simplices, largest component, integer relabelling and cleanup (exact result plus "
             "the five guarantees); TLC evaluates them on the logged argument and compares with the projected result "
-            "of the real call for every TLC-enumerated small hypergraph x flag combinations / selections / orders."),
+            "of the real call for every TLC-enumerated small hypergraph x flag combinations / selections / orders; "
+            "DiHypergraph.cleanup (isolates, relabel, in place or not) is decided by NetOps.DiCleanupOK."),
     "C10": ("§4 C10", "Convert.tla states, per representation, the projection that must survive (incidences / edge "
             "order / everything / class); TLC compares source and round-tripped network for every converter pair, the "
             "other-class constructors and re-inserted bipartite graphs on every TLC-enumerated small hypergraph under "
             "four label families."),
     "C11": ("§4 C11", "the same Convert.tla projections decided by TLC for real write / read round trips in a temporary "
             "directory (HIF incl. simplicial complexes and collections, JSON with casts, edge list, bipartite edge "
-            "list, incidence matrix incl. 1 x m and n x 1, four delimiters)."),
+            "list, incidence matrix incl. 1 x m and n x 1, four delimiters), complexes assembled by their own mutators, "
+            "free-text dataset names, and the file left by a refused second write."),
     "C12": ("§4 C12", "Matrices.tla defines incidence, adjacency (order, s, weighted), degree vector, intersection "
             "profile, clique motif, adjacency tensor, order-d / multi-order (exact rationals) / normalised Laplacians; "
             "TLC compares every returned matrix (sparse and dense, with index maps) entry by entry on TLC-enumerated "
@@ -65,7 +69,7 @@ CLAIMED = {
             "orientations, numeric / string / mixed labels, explicit simplex ids) that each column's non-zeros are "
             "+-1 exactly at the faces of its simplex, that consecutive products vanish, and that each Hodge Laplacian "
             "equals B_k^T B_k + B_{k+1} B_{k+1}^T (hence is symmetric PSD), for every complex generated from "
-            "TLC-enumerated generator sets."),
+            "TLC-enumerated generator sets and for complexes reached by random histories of the complex's own mutators."),
     "C14": ("§4 C14", "the independent implementation is the TLA+ definition evaluated by TLC: components as closure "
             "of the node-edge relation, BFS distances by iterated neighbourhoods, clustering as the exact rational "
             "2T/(k(k-1)), and the vertex / link / weight sets of projection, s-line, bipartite graphs and the "
@@ -85,11 +89,13 @@ CLAIMED = {
             "bijections for all n, m <= 7."),
     "C17": ("§4 C17", "Seeded.tla enumerates every schedule (two seeds, draws from and re-seeding of the global Python "
             "and NumPy generators in between) of bounded length; each schedule is executed in one interpreter for every "
-            "function with a seed parameter (found by introspection) and TLC checks the memo rule on the recorded "
-            "output digests."),
+            "function with a seed parameter (found by introspection), with arguments from a recipe table and from "
+            "per-function argument boxes (degenerate block structures, odd sizes, probabilities 0 / 1 / tiny, sizes "
+            "beyond size-dependent thresholds), and TLC checks the memo rule on the recorded output digests."),
     "C20": ("§4 C20", "Scene.tla defines the abstract scene (marker sequence, bag of lines, bag of polygon vertex sets) of "
             "a network and max_order, the layout domain and the barycenter identity; the harness draws with injective "
-            "integer positions so that every artist coordinate maps back to a node, and TLC compares."),
+            "integer positions so that every artist coordinate maps back to a node, and TLC compares (max_order in "
+            "{None, 0, 1, 2, 3})."),
 }
 NOTE = ("Trusted: TLC, the harness projection/adapter (self-tested on every run by corrupting recorded fields), "
         "and the bounded universes listed in the evidence; outside them only random histories.")
